@@ -330,10 +330,16 @@ def _check_accessors(ctx, case, seq, g, method):
         [(tuple(n), tuple(v)) for n, v in g['evaluations']])
     for _n, v_, _u, _x in g['measurements']:
         ctx.hist('measurement_value', srreports.value_kind(v_) + '/' + str(case.get('path', case.get('stream'))))
-    for n, v, u, _x in g['measurements'][:1]:
-        got = [(float(m.value)) for m in seq.get_measurements(name=srreports.cc(n))]
-        want = [float(v2) for n2, v2, _, _ in g['measurements'] if tuple(n2) == tuple(n)]
-        chk('measurements by name', got, want)
+    # the name filter of both accessors, over the whole (small) pools of names: hits, misses, and the names of the OTHER
+    # accessor / of the fixed items (a measurement name asked of the evaluations, "Finding" asked of the evaluations)
+    for n in list(srreports.MEAS) + [srreports.EVALS[0], ('121071', 'DCM')]:
+        got = [(_code(m.name), float(m.value)) for m in seq.get_measurements(name=srreports.cc(n))]
+        want = [(tuple(n2), float(v2)) for n2, v2, _, _ in g['measurements'] if tuple(n2) == tuple(n)]
+        chk(f'measurements by name {n[0]}', got, want)
+    for n in list(srreports.EVALS) + [srreports.MEAS[0], ('121071', 'DCM'), ('363698007', 'SCT')]:
+        got = [(_code(e.name), _code(e.value)) for e in seq.get_qualitative_evaluations(name=srreports.cc(n))]
+        want = [(tuple(n2), tuple(v2)) for n2, v2 in g['evaluations'] if tuple(n2) == tuple(n)]
+        chk(f'evaluations by name {n[0]}', got, want)
     ref = g['ref']
     t = ref['type']
 
